@@ -103,3 +103,10 @@ Lemma deg2rad_rad2deg x : deg2rad (rad2deg x) = x.
 Proof. unfold deg2rad, rad2deg. field. apply PI_neq0. Qed.
 Lemma rad2deg_deg2rad x : rad2deg (deg2rad x) = x.
 Proof. unfold deg2rad, rad2deg. field. apply PI_neq0. Qed.
+
+(* normalise x * x and x * x * x to powers (the code may write either) *)
+Ltac sq_norm :=
+  repeat match goal with
+         | |- context [?a * ?a * ?a] => progress (replace (a * a * a) with (a ^ 3) by ring)
+         | |- context [?a * ?a] => progress (replace (a * a) with (a ^ 2) by ring)
+         end.
